@@ -58,7 +58,8 @@ package opset13
 //@ family (*).Apply
 //@   tags C02
 //@   requires self != nil
-//@   scope inputs_validated: forall k :: 0 <= k && k < len(inputs) ==> inputs[k] != nil
+//@   scope inputs_validated: len(inputs) >= opmin(asop(self)) && len(inputs) >= opmax(asop(self)) &&
+//@          (forall k :: 0 <= k && k < opmin(asop(self)) && k < len(inputs) ==> inputs[k] != nil)
 //@   modifies opstate(self)
 
 //@ family (*).Init
@@ -422,3 +423,81 @@ package opset13
 //@   ensures keeps_elements: err == nil ==> len(result) == 1 && result[0] != nil && fresh(result[0]) && contents(result[0]) == contents(inputs[0]) && dtype(result[0]) == dtype(inputs[0])
 //@   ensures squeezed_shape: err == nil && inputs[1] != nil ==> rank(result[0]) == keptbefore(inputs[1], rank(inputs[0]), rank(inputs[0])) &&
 //@          (forall i :: 0 <= i && i < rank(inputs[0]) && !isaxis(inputs[1], rank(inputs[0]), i) ==> dim(result[0], keptbefore(inputs[1], rank(inputs[0]), i)) == dim(inputs[0], i))
+
+
+// ---------------------------------------------------------------------------------------
+// C02: operators whose frame argument needs more than the family contract
+
+//@ spec apply_inputs_validated(self Operator, inputs []tensor.Tensor) bool = len(inputs) >= opmin(self) && len(inputs) >= opmax(self) &&
+//@        (forall k :: 0 <= k && k < opmin(self) && k < len(inputs) ==> inputs[k] != nil)
+//@ spec all_new(ts []tensor.Tensor) bool = forall k :: 0 <= k && k < len(ts) ==> ts[k] != nil && fresh(ts[k])
+
+//@ func (*LSTM).Apply
+//@   tags C02
+//@   requires self != nil
+//@   scope inputs_validated: apply_inputs_validated(asop(self), inputs)
+//@   modifies opstate(self)
+//@   loop 1 invariant Ht != nil && fresh(Ht) && Ct != nil && fresh(Ct) && all_new(outputs)
+
+//@ func (*GRU).Apply
+//@   tags C02
+//@   requires self != nil
+//@   scope inputs_validated: apply_inputs_validated(asop(self), inputs)
+//@   modifies opstate(self)
+//@   loop 1 invariant prevH != nil && fresh(prevH) && all_new(outputs)
+
+//@ func (*RNN).Apply
+//@   tags C02
+//@   requires self != nil
+//@   scope inputs_validated: apply_inputs_validated(asop(self), inputs)
+//@   modifies opstate(self)
+//@   loop 1 invariant Ht != nil && fresh(Ht) && all_new(outputs)
+
+//@ func (*MatMul).batchedMatMul
+//@   tags C02
+//@   ensures new_result: err == nil ==> result != nil && fresh(result)
+
+//@ func (*Scaler).Apply
+//@   tags C02
+//@   requires self != nil
+//@   scope inputs_validated: apply_inputs_validated(asop(self), inputs)
+//@   scope initialised: self.offset != nil && self.scale != nil
+//@   modifies opstate(self)
+
+//@ func (*LinearRegressor).Apply
+//@   tags C02
+//@   requires self != nil
+//@   scope inputs_validated: apply_inputs_validated(asop(self), inputs)
+//@   scope initialised: self.coefficients != nil && self.intercepts != nil
+//@   modifies opstate(self)
+
+//@ func (*LinearRegressor).Init
+//@   tags C02
+//@   requires self != nil
+//@   scope new_operator: self.coefficients == nil && self.intercepts == nil
+//@   modifies opstate(self)
+//@   loop 1 invariant (self.coefficients == nil || fresh(self.coefficients)) && (self.intercepts == nil || fresh(self.intercepts))
+
+//@ func (*Constant).Init
+//@   tags C02
+//@   requires self != nil
+//@   scope tensor_attribute_present: forall k :: 0 <= k && k < len(n.Attribute) ==> n.Attribute[k] != nil && n.Attribute[k].T != nil
+//@   modifies opstate(self)
+
+//@ func (*ConstantOfShape).Init
+//@   tags C02
+//@   requires self != nil
+//@   scope tensor_attribute_present: forall k :: 0 <= k && k < len(n.Attribute) ==> n.Attribute[k] != nil && n.Attribute[k].T != nil
+//@   modifies opstate(self)
+
+//@ func gather
+//@   tags C02
+//@   modifies cont(out)
+
+//@ func calcPRelu
+//@   tags C02
+//@   modifies boxedslice(result)
+
+//@ func incrementSlices
+//@   tags C02
+//@   modifies slices[*]
